@@ -67,9 +67,7 @@ section simp_lemmas
 @[simp] theorem real_ofNat' (n : Nat) : (Num.ofNat n : ℝ) = realOfNat n := rfl
 @[simp] theorem realOfNat_zero : realOfNat 0 = 0 := by simp [realOfNat]
 @[simp] theorem realOfNat_one : realOfNat 1 = 1 := by simp [realOfNat]
-@[simp] theorem realOfNat_ofNat (n : Nat) [n.AtLeastTwo] : realOfNat n = (OfNat.ofNat n : ℝ) := by
-  simp only [realOfNat]; exact (Nat.cast_ofNat (R := ℝ) (n := n))
-theorem realOfNat_cast (n : Nat) : realOfNat n = (n : ℝ) := rfl
+@[simp] theorem realOfNat_cast (n : Nat) : realOfNat n = (n : ℝ) := rfl
 @[simp] theorem real_ofSci (m : Nat) (s : Bool) (e : Nat) :
     (@OfScientific.ofScientific ℝ Num.instOfScientific m s e) = (OfScientific.ofScientific m s e : ℝ) := rfl
 @[simp] theorem real_ofSci' (m : Nat) (s : Bool) (e : Nat) :
